@@ -4,7 +4,7 @@ Proofs for the handle bookkeeping (C19): every step of the handle model leaves e
 `Close` releases every scanner.  All by counting occurrences: for every handle `h`,
 `count h (closeAll l hs) = count h l - count h hs` (truncated), `count h (hs ++ l) = count h hs + count h l`.
 -/
-import SST.Model.Handles
+import SST.Spec.Handles
 import SST.Proofs.DBCompact
 namespace SST.Proofs.Handles
 open SST SST.DBM SST.HM
@@ -476,10 +476,6 @@ theorem steady_length_le (s : HState) : (steady s).length ≤ s.db.tables.length
   · cases s.ticker <;> simp <;> omega
   · simp
 
-def isGoroutine : Handle → Bool
-  | .goroutine _ => true
-  | _ => false
-
 theorem steady_files_le (s : HState) :
     ((steady s).filter (fun h => !isGoroutine h)).length ≤ s.db.tables.length + 1 := by
   unfold steady tabGens
@@ -574,8 +570,6 @@ theorem opens_compactPhases (sel : List Nat) : opens (compactPhases sel) ≤ 5 *
 
 /-! ## a stand-alone table reader -/
 
-def closable (s : RState) : List Handle := (List.range s.scans).map (Handle.scanner s.gen) ++ [.tableMmap s.gen]
-
 structure RInv (s : RState) : Prop where
   fresh : s.created = false → s.handles = []
   sub : ∀ h, s.handles.count h ≤ (closable s).count h
@@ -651,5 +645,84 @@ theorem reopen_steady (s : HState) (hn : usable s.db = false) (o : Opts) (t : Bo
 theorem length_le_of_perm_steady (steps : List HStep) :
     (hrun {} steps).handles.length ≤ (hrun {} steps).db.tables.length + 3 := by
   rw [(handles_perm_steady steps).length_eq]; exact steady_length_le _
+
+/-! ## a sharper peak for the compaction cycle: 2k + 4 above the handles before it -/
+
+theorem peak_ge_length (l : List Handle) (ps : List Phase) : l.length ≤ peak l ps := by
+  cases ps <;> simp [peak]; omega
+
+theorem peak_append (l : List Handle) (a b : List Phase) :
+    peak l (a ++ b) = max (peak l a) (peak (runPhases l a) b) := by
+  induction a generalizing l with
+  | nil =>
+    have := peak_ge_length l b
+    simp only [List.nil_append, peak, runPhases_nil]; omega
+  | cons p ps ih =>
+    simp only [List.cons_append, peak, ih, runPhases_cons]; omega
+
+theorem length_run_le (l : List Handle) (ps : List Phase) : (runPhases l ps).length ≤ l.length + opens ps := by
+  induction ps generalizing l with
+  | nil => simp [runPhases, opens]
+  | cons p ps ih =>
+    cases p with
+    | opn hs =>
+      have := ih (hs ++ l)
+      simp only [runPhases_cons, applyPhase, opens, List.length_append] at this ⊢; omega
+    | cls hs =>
+      have := ih (closeAll l hs)
+      have := length_closeAll_le l hs
+      simp only [runPhases_cons, applyPhase, opens] at *; omega
+
+theorem peak_readerOpen (l : List Handle) (g : Nat) : peak l (readerOpen g) = l.length + 1 := by
+  simp [readerOpen, peak, applyPhase, closeAll]
+
+theorem inputs_peak (l : List Handle) (sel : List Nat) :
+    peak l (sel.flatMap (fun g => readerOpen g ++ [.opn [.scanner g 0]])) ≤ l.length + 2 * sel.length ∧
+    (runPhases l (sel.flatMap (fun g => readerOpen g ++ [.opn [.scanner g 0]]))).length = l.length + 2 * sel.length := by
+  induction sel generalizing l with
+  | nil => simp [peak, runPhases]
+  | cons g gs ih =>
+    obtain ⟨h1, h2⟩ := ih (.scanner g 0 :: .tableMmap g :: l)
+    have hrun : runPhases l (readerOpen g ++ [.opn [.scanner g 0]]) = .scanner g 0 :: .tableMmap g :: l := by
+      rw [runPhases_append, run_readerOpen]; rfl
+    rw [List.flatMap_cons, peak_append, hrun, runPhases_append, hrun, peak_append, run_readerOpen, peak_readerOpen]
+    simp only [peak, applyPhase, List.length_cons, List.length_append, List.length_nil] at h1 h2 ⊢
+    omega
+
+theorem length_writerClose_le (l : List Handle) (g : Option Nat) :
+    (runPhases l (writerClose g)).length ≤ l.length ∧ peak l (writerClose g) ≤ l.length + 1 := by
+  have h1 := length_closeAll_le l [.writerFd g .index, .writerFd g .data]
+  have h2 := length_closeAll_le (closeAll l [.writerFd g .index, .writerFd g .data]) [.writerFd g .metadata]
+  simp only [writerClose, runPhases_cons, runPhases_nil, applyPhase, peak, closeAll, List.cons_append, List.nil_append,
+    List.erase_cons_head, List.length_cons] at h1 h2 ⊢
+  omega
+
+/-- while a compaction cycle over `k ≥ 1` tables runs, at most `2k + 4` handles more than before it are open -/
+theorem peak_compactPhases (l : List Handle) (first : Nat) (rest : List Nat) :
+    peak l (compactPhases (first :: rest)) ≤ l.length + 2 * (rest.length + 1) + 4 := by
+  have hshape : compactPhases (first :: rest)
+      = writerOpen none ++ ((first :: rest).flatMap (fun g => readerOpen g ++ [.opn [.scanner g 0]]) ++ (writerClose none
+        ++ ([.opn [.writerFd none .flag], .cls [.writerFd none .flag]]
+        ++ ([.cls (inputHandles (first :: rest)), .cls ((first :: rest).map Handle.tableMmap)] ++ readerOpen first)))) := by
+    simp [compactPhases, inputHandles]
+  rw [hshape]
+  simp only [peak_append]
+  generalize hl1 : runPhases l (writerOpen none) = l1
+  have hlen1 : l1.length = l.length + 3 := by rw [← hl1]; simp [writerOpen, runPhases, applyPhase]
+  have hp1 : peak l (writerOpen none) = l.length + 3 := by simp [writerOpen, peak, applyPhase]; omega
+  obtain ⟨hp2, hlen2⟩ := inputs_peak l1 (first :: rest)
+  generalize runPhases l1 ((first :: rest).flatMap (fun g => readerOpen g ++ [.opn [.scanner g 0]])) = l2 at hlen2 ⊢
+  obtain ⟨hlen3, hp3⟩ := length_writerClose_le l2 none
+  generalize runPhases l2 (writerClose none) = l3 at hlen3 ⊢
+  have hp4 : peak l3 [.opn [.writerFd none .flag], .cls [.writerFd none .flag]] = l3.length + 1 := by
+    simp [peak, applyPhase, closeAll]
+  have hl4 : runPhases l3 [.opn [.writerFd none .flag], .cls [.writerFd none .flag]] = l3 := by
+    simp [runPhases, applyPhase, closeAll]
+  rw [hl4, hp4, peak_readerOpen]
+  have hp5 := peak_le_opens l3 [.cls (inputHandles (first :: rest)), .cls ((first :: rest).map Handle.tableMmap)]
+  have hlen5 := length_run_le l3 [.cls (inputHandles (first :: rest)), .cls ((first :: rest).map Handle.tableMmap)]
+  simp only [opens, List.length_cons] at hp2 hlen2 hp5 hlen5
+  simp only [Nat.max_le]
+  omega
 
 end SST.Proofs.Handles
